@@ -31,7 +31,7 @@ def measures(core, regime, phase, fabric, A, f, L, par=PAR, growth=None):
     rec = dict(exc="None", finite=True, skew_e12=0, sum_e12=0, deadOK=True, linM_e12=0, linPhi_e12=0, m0OK=True, growMismatch=0)
     try:
         o, df = call(par["M"], par["phi"])
-        o2, df2 = call(3.0 * par["M"], par["phi"])
+        o2, df2 = call(0.3 * par["M"], par["phi"])   # a non-integer mobility: linear over the reals
         o3, df3 = call(par["M"], 0.5 * par["phi"])
         o0, df0 = call(0.0, par["phi"])
     except Exception as e:  # noqa: BLE001
@@ -47,7 +47,7 @@ def measures(core, regime, phase, fabric, A, f, L, par=PAR, growth=None):
     rec["sum_e12"] = cap(abs(df.sum()) / max(1.0, np.abs(df).sum()) * 1e12)
     rec["deadOK"] = bool(np.all(df[f == 0] == 0))
     s = max(1.0, np.abs(df).max())
-    rec["linM_e12"] = cap(np.abs(df2 - 3.0 * df).max() / (3.0 * s) * 1e12)
+    rec["linM_e12"] = cap(np.abs(df2 - 0.3 * df).max() / (0.3 * s) * 1e12)
     rec["linPhi_e12"] = cap(np.abs(df3 - 0.5 * df).max() / s * 1e12)
     rec["m0OK"] = bool(np.all(df0 == 0))
     if growth is not None:
